@@ -144,6 +144,11 @@ def search(ctx, budget):
         ctx.evaluations += 1; ctx.count('hier_element_theorem_' + r[0])
         if r[0] == 'bad':
             ctx.failures.append(({'stage': 'hier-element', 'args': list(j), 'text': r[2]}, r[1]))
+    xj = [(ctx.rng.choice(stages.URIS), ctx.rng.choice(stages.PREFIXES), ' '.join(ctx.rng.choice(HE_WORDS[:-2] + ['SEC', 'PART 1 - x', 'BODY']) for _ in range(ctx.rng.randint(1, 5)))) for _ in range(ctx.n(80, 2000) * budget)]
+    for j, r in zip(xj, impl.pmap(_ch_oracle, xj, chunk=16)):
+        ctx.evaluations += 1; ctx.count('crossheading_theorem_' + r[0])
+        if r[0] == 'bad':
+            ctx.failures.append(({'stage': 'crossheading', 'args': list(j), 'text': r[2]}, r[1]))
     cj = chain_cases(ctx, ctx.n(120, 4000) * budget)
     for j, r in zip(cj, impl.pmap(_chain_oracle, cj, chunk=16)):
         ctx.evaluations += 1; ctx.count('hier_chain_theorem_' + r[0])
@@ -205,6 +210,16 @@ def _he_oracle(args):
         return ('bad', 'C04_hier_element_converts predicts %r, the implementation gives %r' % (want, got), text)
     return ('ok', None, text)
 
+# ---- instances of C04_crossheading_converts ----
+def _ch_oracle(args):
+    uri, prefix, h = args
+    text = 'CROSSHEADING %s\n' % h
+    want = ['E', 'crossHeading', [['eId', (prefix + '__' if prefix else '') + 'crossHeading_1']], [['T', h]]]
+    got = impl.e2e_sx((uri, 'hier_element', prefix, text))
+    if got != want:
+        return ('bad', 'C04_crossheading_converts predicts %r, the implementation gives %r' % (want, got), text)
+    return ('ok', None, text)
+
 # ---- instances of C04_hier_chain_yields_nested_nodes: nests of any depth, through the whole implementation ----
 def chain_cases(ctx, n):
     kws = sorted(absdoc.HIER)
@@ -253,6 +268,8 @@ def replay(obj):
         a = case['args']; r = _chain_oracle((a[0], a[1], [tuple(l) for l in a[2]], a[3], a[4])); print(r[:2]); return 1 if r[0] == 'bad' else 0
     if case.get('stage') == 'attr-value':
         r = _attr_oracle(tuple(case['args'])); print(r); return 1 if r[0] == 'bad' else 0
+    if case.get('stage') == 'crossheading':
+        r = _ch_oracle(tuple(case['args'])); print(r[:2]); return 1 if r[0] == 'bad' else 0
     if case.get('stage') == 'hier-element':
         r = _he_oracle(tuple(case['args'])); print(r[:2]); return 1 if r[0] == 'bad' else 0
     return 0 if stages.replay_stage(case) else 1
@@ -266,7 +283,7 @@ LEVEL_TEXT = ('Partial. Proved, on the tables regenerated from README.md, akn.pe
               'without blank or backslash, every heading and content line of plain or escaped characters, in any context, rule hier_element of the regenerated grammar and to_dict '
               'give the hier node with the keyword\'s element, that num, that heading and one paragraph (C04_hier_element_yields_hier_node); and through the WHOLE pipeline model - '
               'pre_parse, grammar, to_dict, XML builder, post-processing, eIds - `KEYWORD num - heading` + an indented plain line converts, for every known URI and every prefix, to '
-              '<tag eId=prefix__abbr_num><num/><heading/><content><p eId=...__p_1/></content></tag> (C04_hier_element_converts; with any number of blank lines between the keyword line and its content: C04_hier_element_converts_blank_lines; the same for the element WITHOUT a heading, `KEYWORD num` + indented line - the commonest form: C04_hier_element_without_heading_converts; instances of all three run on the implementation on every run); and indentation nesting becomes element nesting to ANY depth: a chain of hierarchical elements nested in one another around a plain line is read by hier_element as one nest and to_dict gives the hier nodes nested in the same way, by induction over the depth (C04_hier_chain_yields_nested_nodes), and through the WHOLE pipeline model such a nest - any depth, any indentation widths, every known URI and prefix - converts to the elements nested in the same way with every eId the parent\'s eId + __abbr_num (C04_hier_chain_converts; nests of up to 20 levels run through the whole implementation on every run). '
+              '<tag eId=prefix__abbr_num><num/><heading/><content><p eId=...__p_1/></content></tag> (C04_hier_element_converts; with any number of blank lines between the keyword line and its content: C04_hier_element_converts_blank_lines; the same for the element WITHOUT a heading, `KEYWORD num` + indented line - the commonest form: C04_hier_element_without_heading_converts; a crossheading line: C04_crossheading_converts; instances of all four run on the implementation on every run); and indentation nesting becomes element nesting to ANY depth: a chain of hierarchical elements nested in one another around a plain line is read by hier_element as one nest and to_dict gives the hier nodes nested in the same way, by induction over the depth (C04_hier_chain_yields_nested_nodes), and through the WHOLE pipeline model such a nest - any depth, any indentation widths, every known URI and prefix - converts to the elements nested in the same way with every eId the parent\'s eId + __abbr_num (C04_hier_chain_converts; nests of up to 20 levels run through the whole implementation on every run). '
               'For all other shapes the whole-document statement (text -> prescribed tree) is decided by the '
               'independent specification generator absdoc.py on sampled abstract documents x seven roots, plus every keyword exhaustively, on the '
               'implementation; the model is tied to the code on the same documents by the e2e and dict stages.')
